@@ -54,6 +54,12 @@ def _self_stores(node):
     return out
 
 
+_BUILTIN_ATTRS = set()
+for _t in (str, bytes, list, dict, set, frozenset, tuple, int, float, complex,
+           bool, type(None), range, type(iter([]))):
+    _BUILTIN_ATTRS |= set(dir(_t))
+
+
 class InitAnalysis:
     def __init__(self, A):
         self.A = A
@@ -426,8 +432,9 @@ class InitAnalysis:
                     continue
                 examined += 1
                 a = node.attr
-                if a.startswith('__'):
-                    continue
+                if a.startswith('__') or a in _BUILTIN_ATTRS:
+                    continue        # the inferred class may be wrong: a str /
+                                    # list / dict method is no evidence
                 if any(self.defined_otherwise(t, a) for t in ts):
                     continue
                 if self.stored_anywhere(a) or self.stored_anywhere('*'):
